@@ -59,11 +59,18 @@ def make_lit(kind, k):
 def general(draw, max_classes=4, max_nodes=7, max_props=4, max_stmts=30, bnodes=True, lit_kinds=None,
             inst_props=(RDF_TYPE,), bnode_classes=False, class_typing=False, min_stmts=1, untyped=True,
             single_ns=False, self_links=True, iri_like_literals=False, hash_props=False, unicode_iris=False, colon_locals=False,
-            odd_schemes=False):
+            odd_schemes=False, ns_iris=False, quirks=()):
     """General graphs: 1..max_classes classes, nodes that are IRIs or blank nodes with 0..n classes,
     1..max_props properties; values: literals of several kinds, untyped IRIs / bnodes, typed nodes, the node
     itself.  The statement list is duplicate-free and its order is the document order."""
     lit_kinds = lit_kinds or LIT_KINDS
+    iri_like_literals = iri_like_literals or "iri_like_literals" in quirks
+    class_typing = class_typing or "class_typing" in quirks
+    hash_props = hash_props or "hash_props" in quirks
+    unicode_iris = unicode_iris or "unicode_iris" in quirks
+    colon_locals = colon_locals or "colon_locals" in quirks
+    odd_schemes = odd_schemes or "odd_schemes" in quirks
+    ns_iris = ns_iris or "ns_iris" in quirks
     n_classes = draw(st.integers(1, max_classes))
     n_nodes = draw(st.integers(1, max_nodes))
     n_props = draw(st.integers(1, max_props))
@@ -83,6 +90,9 @@ def general(draw, max_classes=4, max_nodes=7, max_props=4, max_stmts=30, bnodes=
         nodes = [["iri", n[1] + "\u00fc"] if (n[0] == "iri" and i % 3 == 0) else n for i, n in enumerate(nodes)]
     if colon_locals:
         nodes = [["iri", n[1] + ":x%d" % i] if (n[0] == "iri" and i % 2 == 0) else n for i, n in enumerate(nodes)]
+    if ns_iris:
+        # a node whose IRI is exactly a namespace IRI (empty local part), e.g. an ontology node <http://ex.org/ns/>
+        nodes = [["iri", NS[i % len(NS)]] if (n[0] == "iri" and i % 3 == 1) else n for i, n in enumerate(nodes)]
     if inst_prop != RDF_TYPE and draw(st.booleans()):
         props = props + [RDF_TYPE]       # rdf:type must be an ordinary property then
 
@@ -139,6 +149,17 @@ def general(draw, max_classes=4, max_nodes=7, max_props=4, max_stmts=30, bnodes=
             seen.add(key)
             triples.append(tr)
     return {"triples": triples, "classes": [c[1] for c in classes], "inst_prop": inst_prop}
+
+
+QUIRKS = ["iri_like_literals", "class_typing", "hash_props", "unicode_iris", "colon_locals", "odd_schemes", "ns_iris"]
+
+
+@st.composite
+def quirk_set(draw, allowed=tuple(QUIRKS), one_in=3):
+    """unusual but legal naming / typing features of a graph, switched on together now and then"""
+    if draw(st.integers(0, one_in - 1)) != 0:
+        return []
+    return draw(st.lists(st.sampled_from(list(allowed)), min_size=1, max_size=3, unique=True))
 
 
 THRESHOLDS = [0, 0, 0, 1, 0.5, 0.51, 1 / 3, 2 / 3, 0.25, 0.75, 0.2, 0.4, 0.6, 0.8, 1 / 6, 5 / 6, 1 / 7]
